@@ -304,7 +304,8 @@ impl<T: Clone> SentRotateGuard<'_, T> {
     ///
     /// [`Largest Acknowleged`]: https://www.rfc-editor.org/rfc/rfc9000.html#name-ack-frames
     pub fn update_largest(&mut self, ack_frame: &AckFrame) -> Result<(), QuicError> {
-        if ack_frame.largest() > self.inner.sent_packets.largest() {
+        // `largest()` is the next packet number to send: acknowledging it is as wrong as any larger one
+        if ack_frame.largest() >= self.inner.sent_packets.largest() {
             return Err(QuicError::new(
                 ErrorKind::ProtocolViolation,
                 ack_frame.frame_type().into(),
